@@ -76,7 +76,7 @@ struct JSONUtils {
     struct JSONotation_T;
 
     template <typename Char_T, typename Stream_T>
-    static SizeT UnEscape(const Char_T *content, SizeT length, Stream_T &stream) {
+    static SizeT UnEscape(const Char_T *content, SizeT length, Stream_T &stream, bool *terminated = nullptr) {
         using JSONotation = JSONotation_T<Char_T>;
 
         SizeT offset  = 0;
@@ -87,6 +87,10 @@ struct JSONUtils {
                 case JSONotation::QuoteChar: {
                     if (stream.IsNotEmpty()) {
                         stream.Write((content + offset2), (offset - offset2));
+                    }
+
+                    if (terminated != nullptr) {
+                        *terminated = true;
                     }
 
                     ++offset;
